@@ -434,6 +434,8 @@ def _ema_grouped_timed(
     residuals = np.zeros(ngroups, dtype="float64")
     residual_weights = np.zeros(ngroups, dtype="float64")
     last_seen_times = np.zeros(ngroups, dtype="int64")
+    # explicit flag rather than "time > 0", which fails for timestamps at or before the epoch
+    seen = np.zeros(ngroups, dtype=np.bool_)
     last_seen = np.full(ngroups, np.nan, dtype="float64")
 
     masked = mask is not None
@@ -444,7 +446,7 @@ def _ema_grouped_timed(
             out[i] = np.nan
             continue
 
-        if last_seen_times[k] > 0:
+        if seen[k]:
             hl = (times[i] - last_seen_times[k]) / halflife
             beta = np.exp(-np.log(2) * hl)
             residuals[k] *= beta
@@ -458,6 +460,7 @@ def _ema_grouped_timed(
             residuals[k] += x
 
         last_seen_times[k] = times[i]
+        seen[k] = True
         last_seen[k] = out[i]
 
     return out
